@@ -495,4 +495,58 @@ theorem core_block_held (hq : EventsQuiet p) : ∀ (ss : List Stmt), (∀ st ∈
     | normal => exact core_block_held hq rest (fun st' h => hall st' (List.mem_cons_of_mem _ h)) n retTy
     | _ => exact Trip.pure' _
 
+
+/-! ### the destruction event of a resource without nested containers -/
+
+theorem destroyVal_noptr_quiet : ∀ (n : Nat) (v : Val), v.ptrs = [] → Quiet (destroyVal p n v)
+  | 0, _, _ => fun _ => rfl
+  | n + 1, v, hv => by
+    cases v with
+    | some w => simp only [destroyVal]; exact destroyVal_noptr_quiet n w (by simpa [Val.ptrs] using hv)
+    | ptr id => simp [Val.ptrs] at hv
+    | nil => simp only [destroyVal]; exact Quiet.pure _
+    | int _ _ | bool _ | str _ | void | ref _ _ | sref _ _ | invalid | account =>
+      simp only [destroyVal]; exact Quiet.pure _
+
+theorem destroyAll_noptr_quiet : ∀ (n : Nat) (vs : List Val), (∀ v ∈ vs, v.ptrs = []) → Quiet (destroyAll p n vs)
+  | 0, _, _ => fun _ => rfl
+  | _ + 1, [], _ => by simp only [destroyAll]; exact Quiet.pure _
+  | n + 1, v :: vs, h => by
+    simp only [destroyAll]
+    exact Quiet.bind (destroyVal_noptr_quiet p n v (h v (List.mem_cons_self ..))) fun _ =>
+      destroyAll_noptr_quiet n vs fun w hw => h w (List.mem_cons_of_mem _ hw)
+
+/-- destroying a live resource whose fields hold no containers: exactly one event is appended, the
+cell is dead afterwards, nothing else changes -/
+theorem destroy_leaf (hq : EventsQuiet p) (n id : Nat) (c : Cell) (name : String) (fs : List (String × Val))
+    (params : List (String × Expr)) (s : State)
+    (hc : s.heap[id]? = some c) (halive : c.alive = true) (hres : c.res = true) (ho : c.obj = .comp name fs)
+    (hleaf : ∀ v ∈ c.obj.vals, v.ptrs = []) (hev : (p.findComp name).bind (·.destroyEvent) = some params)
+    (hok : (destroyVal p (n + 1) (.ptr id) s).out = .ok ()) :
+    ∃ line, (destroyVal p (n + 1) (.ptr id) s).st =
+      { s with heap := s.heap.set id { c with alive := false, gen := c.gen + 1 }, events := s.events ++ [line] } := by
+  simp only [destroyVal] at hok ⊢
+  obtain ⟨c2, hc2, hb, hst⟩ := bind_quiet_inv (Quiet.getCell id) hok
+  have := getCell_ok hc2; rw [hc] at this; cases this
+  rw [hst]
+  have h1 : ¬ ((!c.alive) = true) := by simp [halive]
+  have h2 : ¬ ((!c.res) = true) := by simp [hres]
+  rw [if_neg h1, if_neg h2] at hb ⊢
+  simp only [ho, hev] at hb ⊢
+  obtain ⟨ev, hevo, hb1, hst1⟩ := bind_inv hb
+  rw [hst1]
+  obtain ⟨args, ha, hp, hst2⟩ := bind_inv hevo
+  have hs2 := hq name params hev n id s args ha
+  simp only [Pure.pure, M.pure] at hp; cases hp
+  have hst2' : ((evalEventArgs p n id params >>= fun args =>
+      (Pure.pure (some (name ++ ".ResourceDestroyed(" ++ ", ".intercalate args ++ ")")) : M (Option String))) s).st = s := by
+    rw [hst2]; exact hs2
+  rw [hst2'] at hb1 ⊢
+  have hvals : (Obj.comp name fs).vals = c.obj.vals := by rw [ho]
+  have hqa := destroyAll_noptr_quiet p n (Obj.comp name fs).vals (by rw [hvals]; exact hleaf)
+  obtain ⟨_, _, hb2, hst3⟩ := bind_quiet_inv hqa hb1
+  rw [hst3]
+  refine ⟨name ++ ".ResourceDestroyed(" ++ ", ".intercalate args ++ ")", ?_⟩
+  simp only [bind, M.bind, M.modify, hc, ho]
+
 end Verif.Model.Lang2
